@@ -341,13 +341,13 @@ pub mod mpsc {
 
     #[verifier::external_body]
     #[verifier::accept_recursive_types(T)]
-    pub struct Sender<T> { _p: PhantomData<T> }
+    pub struct Sender<T> { _p: PhantomData<fn() -> T> }
     #[verifier::external_body]
     #[verifier::accept_recursive_types(T)]
-    pub struct WeakSender<T> { _p: PhantomData<T> }
+    pub struct WeakSender<T> { _p: PhantomData<fn() -> T> }
     #[verifier::external_body]
     #[verifier::accept_recursive_types(T)]
-    pub struct Receiver<T> { _p: PhantomData<T> }
+    pub struct Receiver<T> { _p: PhantomData<fn() -> T> }
 
     pub struct SendError<T>(pub T);
     pub mod error {
@@ -501,10 +501,10 @@ pub mod oneshot {
     use super::*;
     #[verifier::external_body]
     #[verifier::reject_recursive_types(T)]
-    pub struct Sender<T> { _p: PhantomData<T> }
+    pub struct Sender<T> { _p: PhantomData<fn() -> T> }
     #[verifier::external_body]
     #[verifier::reject_recursive_types(T)]
-    pub struct Receiver<T> { _p: PhantomData<T> }
+    pub struct Receiver<T> { _p: PhantomData<fn() -> T> }
     pub struct RecvError;
 
     #[verifier::external_body]
